@@ -169,7 +169,7 @@ def poetic_elements():
     """[(text, letters counted)] element spellings: plain words of several lengths (incl. multiples of 10), apostrophes inside / leading /
     trailing (not counted), 's / 're suffixes (counted with their word), hyphens (count as letters), keywords as words, capitals, non-ASCII letters"""
     el = [(w, n) for n, w in WORDS.items()]
-    el += [("don't", 4), ("rock'n'roll", 9), ("'cause", 5), ("lovin'", 5), ("rockstar's", 9), ("we're", 4), ("it's", 3), ('ice-cold', 8), ('all-consuming', 13), ('a-b', 3), ('know-it-all', 11), ('rock-and-roll', 13), ('grown-up', 8), ('up-and-down', 11),
+    el += [("don't", 4), ("rock'n'roll", 9), ("'cause", 5), ("lovin'", 5), ("rockstar's", 9), ("we're", 4), ("it's", 3), ("ROCKSTAR'S", 9), ("WE'RE", 4), ("We'Re", 4), ("mommy's-boy", 10), ("MOMMY'S-BOY", 10), ('ice-cold', 8), ('all-consuming', 13), ('a-b', 3), ('know-it-all', 11), ('rock-and-roll', 13), ('grown-up', 8), ('up-and-down', 11),
            ('nothing', 7), ('with', 4), ('is', 2), ('taking', 6), ('Tommy', 5), ('ROCK', 4), ('éé', 2), ('mütley', 6), ('Ünder', 5)]
     return el
 
